@@ -85,9 +85,9 @@ def cmdline(o, out):
             parts.append("mode=0%o" % d["mode"])
         a += ["-d", ",".join(parts)]
     if "set_uid" in o:
-        a += ["--set-uid", str(o["set_uid"])]
+        a += ["--set-uid", str(o.get("set_id_spelling", o["set_uid"]))]
     if "set_gid" in o:
-        a += ["--set-gid", str(o["set_gid"])]
+        a += ["--set-gid", str(o.get("set_id_spelling", o["set_gid"]))]
     if o.get("all_root"):
         a.append("--all-root")
     if o.get("keep_time"):
